@@ -2951,11 +2951,26 @@ fn generate_constraints_expr(
                             // fully qualified struct/enum method
                             // example: Person.fullname(my_person)
                             //          ^^^^^
+                            // for a method with `self` the receiver is the first argument; the
+                            // remaining ones may be named or omitted exactly as in
+                            // `my_person.fullname(..)`
+                            let has_self = func.args.first().is_some_and(|a| a.name.v == "self");
+                            if !has_self {
+                                calculate_func_call_order(ctx, fname.node(), args, expr.node());
+                            } else if let Some((first, rest)) = args.split_first()
+                                && first.name.is_none()
+                            {
+                                calculate_func_call_order(ctx, fname.node(), rest, expr.node());
+                                if let Some(order) = ctx.function_call_arg_order.get_mut(&expr.id) {
+                                    order.insert(0, first.val.clone());
+                                }
+                            }
                             helper(ctx, func.name.node(), None);
                         }
                         Some(Declaration::FreeFunction(FuncResolutionKind::Ordinary(func))) => {
                             // namespaced function
                             // example: term.enable_raw_mode()
+                            calculate_func_call_order(ctx, fname.node(), args, expr.node());
                             helper(ctx, func.name.node(), None);
                         }
                         Some(Declaration::FreeFunction(FuncResolutionKind::Host(func))) => {
